@@ -64,3 +64,8 @@ CHECKS['C10'] = _c('fault_enumeration',
     "Trace-automaton monitoring of every connection object of a real client: an online automaton over ConnectionStateChangedEvent / MessageReceivedEvent (forward-only states, CLOSED exactly once, nothing after it, no delivery after it, no byte on the tap for a send after it) plus a structural comparison, at quiescent moments, of the registry of peer connections with the simulated network's open endpoints and with the tasks that created the connections. Workload: enumerated/seeded endings (9 incoming init behaviours, outgoing, plain/obfuscated, P/D/F; local disconnect x1-3, remote EOF/RST, read timeout, write timeout, both sides at once, client stop), plus the C11 request grid with cancellation of the connecting task after k = 0..14 loop steps and the connect-back scenarios.",
     "A closing endpoint whose FIN is in flight is not a leak; an idle outgoing file connection is given a reader as the library's own callers do.",
     "online trace automaton + structural invariant against simulated-network ground truth at quiescent points")
+
+CHECKS['C05'] = _c('exploration',
+    "Trace monitoring of the real TransferManager of an uploading client against 1-5 scripted downloaders: occupancy is maintained from listener notifications only and judged at every edge into INITIALIZING (<= the slot limit in force at the granting decision, one per user); a wrapper around manage_transfers records every scheduling decision (queued uploads, grants = new initialisation tasks) and judges priority against ranks folded independently from the server frames the client processed (and voided when the client untracks a user); bounded progress (grant within 1 virtual second with a free slot and an eligible queued upload) is checked at quiescence. Seeded populations (status/friend/privilege), slot limits 0..4 changed at run time, holds of 0.2-6 s so that decisions overlap occupied slots, rejections, silent and vanishing peers, user aborts, status/privilege pushes.",
+    "Tiers privileged > friend > online/away > unknown, offline never, ties free. The scripted server reports status only for users the client asked about.",
+    "trace monitoring of scheduling decisions + independent fold of server announcements")
